@@ -3,6 +3,7 @@ package system
 import (
 	"errors"
 	"fmt"
+	"math"
 
 	dtpb "github.com/google/fhir/go/proto/google/fhir/proto/r4/core/datatypes_go_proto"
 	"github.com/shopspring/decimal"
@@ -162,7 +163,12 @@ func (c Collection) ToFloat64() (float64, error) {
 	}
 	switch val := v.(type) {
 	case Decimal:
-		return decimal.Decimal(val).InexactFloat64(), nil
+		f := decimal.Decimal(val).InexactFloat64()
+		if math.IsInf(f, 0) {
+			// too large for a float64 (1e400): not convertible
+			return 0, c.convertErr(v, "float64")
+		}
+		return f, nil
 	case Integer:
 		return float64(val), nil
 	case *dtpb.Integer:
